@@ -116,3 +116,24 @@ package req
 //@
 //@ func (*socket).send
 //@   before call:AfterFunc#1 assert c.resendTimer == nil || ev("stopped", c.resendTimer)
+//@
+//@ func (*socket).Close
+//@   loop 1 complete
+//@   before call:cancel#1 assert c.closed && held(s.Mutex)
+//@   ghost was = s.closed at call:Lock#1
+//@   ensures was ==> result == protocol.ErrClosed
+//@   ensures !was ==> isnil(result) && s.closed
+//@
+//@ func (*context).Close
+//@   ghost was = c.closed at call:Lock#1
+//@   ensures was ==> result == protocol.ErrClosed
+//@   ensures !was ==> isnil(result) && c.closed && called("cancel") && !has(c.s.contexts, c)
+//@
+//@ func (*context).cancel
+//@   ensures called("Broadcast")
+//@
+//@ func (*context).SendMsg
+//@   before call:Wait#1 assert !c.closed && c.sendMsg == m && held(s.Mutex)
+//@
+//@ func (*context).RecvMsg
+//@   before call:Wait#1 assert c.reqID == id && id != 0 && c.repMsg == nil && held(s.Mutex)
